@@ -731,6 +731,12 @@ def site_check(unit, sc):
     (e.g. 'every read_int64 call site is inside case negative_integer').  sc = {file, pattern, count, what, props}.
     A miscount is CHECK-BROKEN (exit 2): a proof about a function that is no longer called that way proves nothing."""
     raw, nc, mask = header_nc(sc['file'])
+    # 'outside': [(from_regex, to_regex)] -- regions (each must exist exactly once) that are under contract; the pattern is counted in the rest of the file
+    for a, b in sc.get('outside', ()):
+        ma = list(re.finditer(a, nc)); mb = list(re.finditer(b, nc))
+        if len(ma) != 1 or len(mb) != 1 or mb[0].start() < ma[0].start():
+            raise Broken('SITE-CHECK %s: %s: region %r .. %r not found exactly once in %s' % (unit, sc['what'], a, b, sc['file']))
+        nc = nc[:ma[0].start()] + nc[mb[0].start():]
     n = len(re.findall(sc['pattern'], nc, flags=re.S))
     lo, hi = (sc['count'], sc['count']) if isinstance(sc['count'], int) else sc['count']
     if n < lo or n > hi:
